@@ -1227,6 +1227,8 @@ MUTANTS = [
     dict(name='c10-emplace-releases-after-lookup', prop='C10', clause='D4', edits=[
         (CHM_H, "    bool generic_emplace( Accessor && result, Args &&... args ) {\n        result.release();\n", "    bool generic_emplace( Accessor && result, Args &&... args ) {\n        if (this->my_size.load(std::memory_order_relaxed) != 0) result.release();\n")]),
     dict(name='c10-growth-after-insert-unguarded', prop='C10', clause='D5', edits=[(CHM_H, '#if TBB_USE_EXCEPTIONS\n            try\n#endif\n            {\n                this->enable_segment( grow_segment );\n            }\n#if TBB_USE_EXCEPTIONS\n            catch(...) {}\n#endif\n', '            this->enable_segment( grow_segment );\n')]),
+    dict(name='c10-seed6-accessor-remembers-the-masked-hash', prop='C10', clause='D2', edits=[(CHM_H, '        result->my_hash = h;\n', '        result->my_hash = h & m; // exclude() only needs it to locate the bucket\n')]),
+    dict(name='c10-accessor-remembers-a-masked-hash-through-a-local', prop='C10', clause='D2', edits=[(CHM_H, '        result->my_hash = h;\n', '        { const hashcode_type reduced = h & m; result->my_hash = reduced; }\n')]),
     # ---------------------------------------------------------------- C11
     dict(name='c11-int-delta-regression', prop='C11', clause='D6', edits=[
         (CV_H, "        if (old_size < new_size) {\n            return internal_grow(old_size, new_size, args...);\n        }",
@@ -1658,6 +1660,7 @@ MUTANTS += [
 ]
 
 BENIGN = [
+    dict(name='c10-b-accessor-hash-through-a-local', prop='C10', edits=[(CHM_H, '        result->my_hash = h;\n', '        { const hashcode_type whole_hash = h; result->my_hash = whole_hash; }\n')]),
     dict(name='c05-b-2d-ratio-comparison-in-a-local', prop='C05', edits=[('include/oneapi/tbb/blocked_range2d.h', '        if ( !my_rows.is_divisible() || (my_cols.is_divisible() &&\n             my_rows.size()*double(my_cols.grainsize()) < my_cols.size()*double(my_rows.grainsize())) ) {', '        const bool cols_larger = my_rows.size()*double(my_cols.grainsize()) < my_cols.size()*double(my_rows.grainsize());\n        if ( !my_rows.is_divisible() || (my_cols.is_divisible() && cols_larger) ) {')]),
     dict(name='c10-b-guarded-growth-through-a-local', prop='C10', edits=[(CHM_H, '#if TBB_USE_EXCEPTIONS\n            try\n#endif\n            {\n                this->enable_segment( grow_segment );\n            }\n#if TBB_USE_EXCEPTIONS\n            catch(...) {}\n#endif\n', '#if TBB_USE_EXCEPTIONS\n            try\n#endif\n            {\n                const segment_index_type seg = grow_segment;\n                this->enable_segment( seg );\n            }\n#if TBB_USE_EXCEPTIONS\n            catch(...) {}\n#endif\n')]),
     dict(name='c20-b-resume-exemption-through-a-local', prop='C20', edits=[('src/tbb/task_stream.h', '            if( result && (task_accessor::isolation(*result) == isolation || task_accessor::is_resume_task(*result)) ) {', '            const bool resume_task = result && task_accessor::is_resume_task(*result);\n            if( result && (resume_task || task_accessor::isolation(*result) == isolation) ) {')]),
